@@ -6,6 +6,7 @@ with the frames P3 actually analysed (recorded by wrapping P3GlobalSemanticAnaly
 from the harness process).
 """
 import glob
+import hashlib
 import importlib
 import json
 import os
@@ -641,11 +642,22 @@ def gen_shard(arg):
     p2_no_classes = any(e.get("status") == "open" and list(e.get("signature", []))[1:3] == ["missing-edge-p2", "object-call"]
                         for e in common.load_known(ID))
 
+    counter = [0]
+
     @st.composite
     def cases(draw):
-        p2 = bool(p2_pct) and draw(st.integers(0, 99)) < p2_pct
-        case = draw(c07_gen.projects(avoid=avoid, extended=extended, no_classes=p2 and p2_no_classes))
+        # Hypothesis draws the salt; it is mixed with the shard seed and the running example number because Hypothesis'
+        # bounded integers are heavily biased towards small magnitudes (41 % duplicate projects in a 16 000-case run
+        # when the generator was seeded with the drawn integer alone).  Still a pure function of VERIF_SEED.
+        salt = draw(st.integers(0, 2 ** 48 - 1))
+        counter[0] += 1
+        h = int.from_bytes(hashlib.blake2b(("%d:%d:%d" % (seed, counter[0], salt)).encode(), digest_size=8).digest(), "big")
+        p2 = bool(p2_pct) and (h % 100) < p2_pct
+        gseed = h >> 8
+        case = c07_gen.Gen(c07_gen.RandomChooser(gseed), avoid=avoid, extended=extended,
+                           no_classes=p2 and p2_no_classes).build()
         case["p2"] = p2
+        case["gen_seed"] = gseed
         return case
 
     @hypothesis.seed(seed)
